@@ -10,10 +10,12 @@
    Proved at full strength: hoistbound, fold.  Proved under a sufficient syntactic condition (_partial): chunk,
    fuse.  Refuted by concrete accepted witnesses: fuse (4), swap, chunk (negative step; the step/chunk-size and
    loop-variable-in-bounds refutations became refusals with the fix commits on /repo), tile, hoist (2), induction (3).
-   Not proved (model + correspondence + refutation only): swap/tile/hoist/induction soundness conditions. *)
+   Proved under computable sufficient conditions as well: hoist (hoist_safe), induction (induction_safe).
+   Not proved (model + correspondence + refutation only): swap/tile soundness conditions. *)
 From Coq Require Import List ZArith Bool.
 Import ListNotations.
-From PV Require Import Fort.Syntax Fort.Sem Fort.Facts3 C05.Model C05.Equiv C05.HoistBound C05.Fold C05.Chunk C05.Fuse C05.Refuted.
+From PV Require Import Fort.Syntax Fort.Sem Fort.Facts3 C05.Model C05.Equiv C05.HoistBound C05.Fold C05.Chunk C05.Fuse C05.Refuted
+  C05.HoistProofs C05.InductionProofs.
 Open Scope Z_scope.
 
 (* ---- HoistLoopBoundExprTrans: full (the three created symbols are distinct and not read in p) ---- *)
@@ -111,6 +113,22 @@ Proof. exact tile_refuted. Qed.
 Print Assumptions C05_tile_refuted.
 
 (* ---- HoistTrans ---- *)
+(* literal bounds with trip count >= 1, scalar x = e with e invariant by the name-level frame, plain statements
+   before it that do not read x, x written nowhere else (hoist_safe, coq/C05/HoistProofs.v) *)
+Theorem C05_hoist_sound_partial : forall path p p',
+  hoist_safe path p = true -> hoist_apply path p = Some p' -> sim [] p p'.
+Proof. exact hoist_sound_partial. Qed.
+Print Assumptions C05_hoist_sound_partial.
+
+Example C05_hoist_nonvacuous :
+  hoist_safe [0%nat; 1%nat] hoist_example = true /\
+  hoist_apply [0%nat; 1%nat] hoist_example =
+  Some [SAssign 4%nat [] (EBin Add (EVar 2%nat) (ELit 1));
+        SDo 0%nat (ELit 1) (ELit 3) (ELit 1)
+          [SAssign 11%nat [EVar 0%nat] (ELit 2); SAssign 10%nat [EVar 0%nat] (EVar 4%nat)]].
+Proof. exact hoist_nonvacuous. Qed.
+Print Assumptions C05_hoist_nonvacuous.
+
 Theorem C05_hoist_refuted_zero_trip : exists p path p', hoist_apply path p = Some p' /\ ~ sim [] p p'.
 Proof. exact hoist_refuted_zero_trip. Qed.
 Print Assumptions C05_hoist_refuted_zero_trip.
@@ -120,6 +138,24 @@ Proof. exact hoist_refuted_early_exit. Qed.
 Print Assumptions C05_hoist_refuted_early_exit.
 
 (* ---- ReplaceInductionVariablesTrans ---- *)
+(* literal bounds with trip count >= 1, body = induction assignment followed by assignments only, variable not in
+   the bounds, not rewritten, rhs invariant except for the loop variable (induction_safe, coq/C05/InductionProofs.v) *)
+Theorem C05_induction_sound_partial : forall path p p',
+  induction_safe path p = true -> induction_apply path p = Some p' -> sim [] p p'.
+Proof. exact induction_sound_partial. Qed.
+Print Assumptions C05_induction_sound_partial.
+
+Example C05_induction_nonvacuous :
+  induction_safe [0%nat] induction_example = true /\
+  induction_apply [0%nat] induction_example =
+  Some [SDo 0%nat (ELit 1) (ELit 4) (ELit 1)
+          [SAssign 10%nat [EVar 0%nat] (EBin Sub (EVar 0%nat) (ELit 1));
+           SAssign 11%nat [EBin Sub (EVar 0%nat) (ELit 1)]
+                   (EBin Add (EIdx 10%nat [EVar 0%nat]) (EBin Sub (EVar 0%nat) (ELit 1)))];
+        SAssign 3%nat [] (EBin Sub (EBin Sub (EVar 0%nat) (ELit 1)) (ELit 1))].
+Proof. exact induction_nonvacuous. Qed.
+Print Assumptions C05_induction_nonvacuous.
+
 Theorem C05_induction_refuted_zero_trip : exists p path p', induction_apply path p = Some p' /\ ~ sim [] p p'.
 Proof. exact induction_refuted_zero_trip. Qed.
 Print Assumptions C05_induction_refuted_zero_trip.
